@@ -21,12 +21,17 @@ from harness.vlib import coq_str, coq_z
 # class specifications
 # ---------------------------------------------------------------------------
 # declaration: {"name", "meta": str|None, "ann": None | [("alias", s) | ("other",)], "init": bool,
-#               "dflt": None | "int" | "none", "ty": "int"|"any"|"optint", "mo": bool}
-# level:       {"cls": "A"|"B"|"K", "decls": [declaration...],
-#               "config": None | {"aliases": {name: alias}, "allow": bool, "forbid": bool}}
+#               "dflt": None | "int" | "none", "ty": "int"|"any"|"optint", "mo": bool, "kw": bool (kw_only=True),
+#               "tv": bool (written with the class's type variable T instead of int)}
+# config:      {"plain": bool (class Config: instead of class Config(BaseConfig):),
+#               "inherit": None | class name (class Config(<name>.Config):), and per option None = not written:
+#               "aliases": {name: alias}|None, "allow": bool|None, "forbid": bool|None}
+# level:       {"cls": "A"|"B"|"K", "decls": [declaration...], "config": None | config}
 # class spec:  {"levels": [level...]  (base-most first, K last), "classvar": [name] (ClassVar members of K),
+#               "initvar": [name] (InitVar members of K, with default), "shape": "chain" | "roots" (K(B, A): the
+#               ancestors are unrelated classes), "generic": bool (A is Generic[T], bound to int by its heirs),
 #               "discr": None | ("field", s) | ("nofield",)  (Config discriminator of a common parent `Base`),
-#               "mixin": bool}
+#               "mixin": None | "dict" | "json" | "orjson" | "msgpack" | "yaml"}
 
 DEFAULT = -1          # int default of defaulted fields; never used as an input value
 NONE_CODE = -7        # how the Python value None crosses to Coq (values are opaque to the model)
@@ -49,17 +54,20 @@ def member_names(spec) -> list:
     out = []
     for lv in spec["levels"]:
         out += [f["name"] for f in lv["decls"]]
-    return out + list(spec.get("classvar", []))
+    return out + list(spec.get("classvar", [])) + list(spec.get("initvar", []))
 
 
 def decl_source(f) -> str:
-    ty = {"int": "int", "any": "Any", "optint": "Optional[int]"}[f["ty"]]
+    ty = {"int": "T" if f.get("tv") else "int", "any": "Any", "optint": "Optional[int]",
+          "nested": "Optional[N]" if f["dflt"] == "none" else "N"}[f["ty"]]
     if f["ann"] is not None:
         items = ", ".join(f"Alias({a[1]!r})" if a[0] == "alias" else "'other'" for a in f["ann"])
         ty = f"Annotated[{ty}, {items}]"
     args = []
     if not f["init"]:
         args.append("init=False")
+    if f.get("kw"):
+        args.append("kw_only=True")
     if f["dflt"] == "int":
         args.append(f"default={DEFAULT}")
     elif f["dflt"] == "none":
@@ -75,29 +83,57 @@ def decl_source(f) -> str:
     return f"    {f['name']}: {ty}{rhs}"
 
 
+MIXINS = {"dict": "DataClassDictMixin", "json": "DataClassJSONMixin", "orjson": "DataClassORJSONMixin",
+          "msgpack": "DataClassMessagePackMixin", "yaml": "DataClassYAMLMixin"}
+
+
 def class_source(spec) -> str:
     """Self-contained Python source: [Base with the Config discriminator,] the ancestors A, B and the class K."""
-    L = ["from dataclasses import dataclass, field",
-         "from typing import Any, ClassVar, Optional",
+    L = ["from dataclasses import dataclass, field, InitVar",
+         "from typing import Any, ClassVar, Generic, Optional, TypeVar",
          "from typing_extensions import Annotated",
          "from mashumaro import DataClassDictMixin",
+         "from mashumaro.mixins.json import DataClassJSONMixin",
+         "from mashumaro.mixins.orjson import DataClassORJSONMixin",
+         "from mashumaro.mixins.msgpack import DataClassMessagePackMixin",
+         "from mashumaro.mixins.yaml import DataClassYAMLMixin",
          "from mashumaro.config import BaseConfig",
          "from mashumaro.types import Alias, Discriminator",
+         "",
+         "T = TypeVar('T')",
          ""]
-    base = "DataClassDictMixin" if spec["mixin"] else ""
+    if spec.get("inner") is not None:
+        inner_src = class_source(spec["inner"])
+        L.append(inner_src[inner_src.index("T = TypeVar('T')") + len("T = TypeVar('T')"):].strip("\n"))
+        L.append("")
+    root = MIXINS[spec["mixin"]] if spec["mixin"] else ""
     if spec["discr"] is not None:
         L.append("@dataclass")
-        L.append(f"class Base({base}):" if base else "class Base:")
+        L.append(f"class Base({root}):" if root else "class Base:")
         L.append("    class Config(BaseConfig):")
         if spec["discr"][0] == "field":
             L.append(f"        discriminator = Discriminator(field={spec['discr'][1]!r}, include_subtypes=True)")
         else:
             L.append("        discriminator = Discriminator(include_subtypes=True)")
         L.append("")
-        base = "Base"
-    for lv in spec["levels"]:
+        root = "Base"
+    levels = spec["levels"]
+    generic = spec.get("generic") and len(levels) > 1
+
+    def ref(j):        # how an heir names ancestor j
+        return levels[j]["cls"] + ("[int]" if generic and j == 0 else "")
+
+    for j, lv in enumerate(levels):
+        if spec.get("shape") == "roots" and lv["cls"] == "K":
+            bases = [ref(i) for i in range(j - 1, -1, -1)]            # K(B, A): nearest first
+        elif spec.get("shape") == "roots" or j == 0:
+            bases = [root] if root else []
+        else:
+            bases = [ref(j - 1)]
+        if generic and j == 0:
+            bases = bases + ["Generic[T]"]
         L.append("@dataclass")
-        L.append(f"class {lv['cls']}({base}):" if base else f"class {lv['cls']}:")
+        L.append(f"class {lv['cls']}({', '.join(bases)}):" if bases else f"class {lv['cls']}:")
         body = 0
         if lv["cls"] == "K":
             if spec["discr"] is not None and spec["discr"][0] == "field":
@@ -112,17 +148,30 @@ def class_source(spec) -> str:
             for n in spec.get("classvar", []):
                 L.append(f"    {n}: ClassVar[int] = 3")
                 body += 1
+            for n in spec.get("initvar", []):
+                L.append(f"    {n}: InitVar[int] = 0")
+                body += 1
         if lv["config"] is not None:
             c = lv["config"]
-            L.append("    class Config(BaseConfig):")
-            L.append(f"        aliases = {c['aliases']!r}")
-            L.append(f"        allow_deserialization_not_by_alias = {c['allow']!r}")
-            L.append(f"        forbid_extra_keys = {c['forbid']!r}")
+            if c["inherit"] is not None:
+                L.append(f"    class Config({c['inherit']}.Config):")
+            elif c["plain"]:
+                L.append("    class Config:")
+            else:
+                L.append("    class Config(BaseConfig):")
+            n0 = len(L)
+            if c["aliases"] is not None:
+                L.append(f"        aliases = {c['aliases']!r}")
+            if c["allow"] is not None:
+                L.append(f"        allow_deserialization_not_by_alias = {c['allow']!r}")
+            if c["forbid"] is not None:
+                L.append(f"        forbid_extra_keys = {c['forbid']!r}")
+            if len(L) == n0:
+                L.append("        pass")
             body += 1
         if not body:
             L.append("    pass")
         L.append("")
-        base = lv["cls"]
     return "\n".join(L)
 
 
@@ -156,12 +205,20 @@ def o_fields(spec) -> list:
     return [f for f in seen.values() if f["init"]]
 
 
+DEFAULT_CFG = {"aliases": {}, "allow": False, "forbid": False}
+
+
 def o_config(spec) -> dict:
-    """Config is a plain class attribute: the nearest class that defines one supplies every option."""
-    for lv in reversed(spec["levels"]):
-        if lv["config"] is not None:
-            return lv["config"]
-    return {"aliases": {}, "allow": False, "forbid": False}
+    """Config is a plain class attribute: the nearest class that defines one supplies it; an option not written in
+    it is looked up in the Config it derives from, if any, else it has its documented default."""
+    cur = dict(DEFAULT_CFG)
+    for lv in spec["levels"]:
+        c = lv["config"]
+        if c is None:
+            continue
+        base = cur if c["inherit"] is not None else DEFAULT_CFG
+        cur = {k: (c[k] if c[k] is not None else base[k]) for k in ("aliases", "allow", "forbid")}
+    return cur
 
 
 def o_alias(spec, f):
@@ -252,18 +309,80 @@ def observe(spec, call, d: dict):
     return ("inst", vals)
 
 
+def str_keys(d) -> bool:
+    return all(isinstance(k, str) for k in d)
+
+
 def entries(spec, mod):
-    """(name, callable) entry points of the class."""
+    """(name, callable, needs_str_keys) entry points of the class: the dict methods, the format methods of the
+    mixins (the input dict is first rendered in the format) and the codecs."""
+    import json
+    import msgpack
+    import orjson
+    import yaml
     from mashumaro.codecs import BasicDecoder
+    from mashumaro.codecs.json import JSONDecoder
+    from mashumaro.codecs.msgpack import MessagePackDecoder
+    from mashumaro.codecs.orjson import ORJSONDecoder
+    from mashumaro.codecs.yaml import YAMLDecoder
+    K = mod.K
     out = []
-    if spec["mixin"]:
-        out.append(("K.from_dict", mod.K.from_dict))
-    out.append(("BasicDecoder(K).decode", BasicDecoder(mod.K).decode))
+    m = spec["mixin"]
+    if m:
+        out.append(("K.from_dict", K.from_dict, False))
+    if m == "json":
+        out.append(("K.from_json", lambda d: K.from_json(json.dumps(d)), True))
+    elif m == "orjson":
+        out.append(("K.from_json[orjson]", lambda d: K.from_json(orjson.dumps(d)), True))
+        out.append(("K.from_json[orjson, str]", lambda d: K.from_json(orjson.dumps(d).decode()), True))
+    elif m == "msgpack":
+        out.append(("K.from_msgpack", lambda d: K.from_msgpack(msgpack.packb(d)), True))
+    elif m == "yaml":
+        out.append(("K.from_yaml", lambda d: K.from_yaml(yaml.safe_dump(d)), True))
+    out.append(("BasicDecoder(K).decode", BasicDecoder(K).decode, False))
+    jd, od, md, yd = JSONDecoder(K), ORJSONDecoder(K), MessagePackDecoder(K), YAMLDecoder(K)
+    out.append(("JSONDecoder(K).decode", lambda d: jd.decode(json.dumps(d)), True))
+    out.append(("ORJSONDecoder(K).decode", lambda d: od.decode(orjson.dumps(d)), True))
+    out.append(("MessagePackDecoder(K).decode", lambda d: md.decode(msgpack.packb(d)), True))
+    out.append(("YAMLDecoder(K).decode", lambda d: yd.decode(yaml.safe_dump(d)), True))
     if tag_dispatch_ok(spec):
         # through the class-level discriminator of the parent: Base dispatches on d[field] == K.<field>
-        if spec["mixin"]:
-            out.append(("Base.from_dict", mod.Base.from_dict))
-        out.append(("BasicDecoder(Base).decode", BasicDecoder(mod.Base).decode))
+        if m:
+            out.append(("Base.from_dict", mod.Base.from_dict, False))
+        out.append(("BasicDecoder(Base).decode", BasicDecoder(mod.Base).decode, False))
+    return out
+
+
+def cfg_hierarchy(spec, sub):
+    """the classes whose Config the last class of `sub` can see or name: an unrelated base without Config of its own
+    sees none; otherwise every class defined before it counts (a deriving Config names the nearest one)"""
+    last = sub[-1]
+    if spec["shape"] == "roots" and last["cls"] != "K" and last["config"] is None:
+        return [last]
+    return spec["levels"][:spec["levels"].index(last) + 1]
+
+
+def source_views(spec, mod):
+    """For K and each ancestor: (the part of the hierarchy the class is made of, what CodeBuilder(cls).dataclass_fields
+    holds [(name, metadata alias, init)], what CodeBuilder(cls).get_config() holds) as Coq terms."""
+    import dataclasses
+    from mashumaro.core.meta.code.builder import CodeBuilder
+    out = []
+    levels = spec["levels"]
+    for j, lv in enumerate(levels):
+        cls = getattr(mod, lv["cls"])
+        sub = levels[:j + 1] if (spec["shape"] == "chain" or lv["cls"] == "K") else [lv]
+        b = CodeBuilder(cls)
+        flds = []
+        for n, f in b.dataclass_fields.items():
+            if f._field_type is not dataclasses._FIELD:
+                continue                      # ClassVar / InitVar pseudo-fields
+            flds.append(f"({coq_str(n)}, {c_ostr(f.metadata.get('alias'))}, {vlib.coq_bool(f.init)})")
+        cfg = b.get_config()
+        if getattr(cfg, "discriminator", None) is not None:
+            continue                          # the class sees Base's Config (it is a dispatcher itself)
+        cf = f"(mkCfg {c_aliases(dict(cfg.aliases))} {vlib.coq_bool(cfg.allow_deserialization_not_by_alias)} {vlib.coq_bool(cfg.forbid_extra_keys)})"
+        out.append((sub, "[" + "; ".join(flds) + "]", cf))
     return out
 
 
@@ -331,12 +450,10 @@ def gen_spec(rng, force=None):
     # the declarations K finally sees
     final, cfg_aliases = [], {}
     for n in names:
-        meta, ann, cfg = sources(n)
-        if cfg is not None:
-            cfg_aliases[n] = cfg
+        meta, ann, _ = sources(n)
         final.append({"name": n, "meta": meta, "ann": ann, "init": True, "dflt": None,
                       "ty": rng.choice(["any", "optint"]) if nullable else rng.choice(["int", "any"]),
-                      "mo": rng.random() < 0.25})
+                      "mo": rng.random() < 0.25, "kw": rng.random() < 0.15, "tv": False})
     k = rng.randrange(nf + 1) if nf else 0          # defaults: a suffix (no non-default after default)
     for f in (final[nf - k:] if k else []):
         f["dflt"] = rng.choice(["int", "none"]) if f["ty"] != "int" else "int"
@@ -345,16 +462,16 @@ def gen_spec(rng, force=None):
     depth = force.get("depth", rng.choice([1, 1, 2, 2, 3, 3]))
     cls_names = {1: ["K"], 2: ["A", "K"], 3: ["A", "B", "K"]}[depth]
     levels = [{"cls": c, "decls": [], "config": None} for c in cls_names]
+    shape = "roots" if depth == 3 and rng.random() < 0.35 else "chain"
+    generic = depth > 1 and rng.random() < 0.25
     firsts = sorted(rng.randrange(depth) for _ in names)          # fields of the bases come first
     decoy_cfg_aliases = {}
     for f, first in zip(final, firsts):
         where = [first] + [j for j in range(first + 1, depth) if rng.random() < 0.45]
         for j in where[:-1]:
             # a declaration that is shadowed by a nearer one: other alias sources, same type/default shape
-            meta, ann, cfg = sources(f["name"], tag=cls_names[j])
-            levels[j]["decls"].append(dict(f, meta=meta, ann=ann, mo=rng.random() < 0.25))
-            if cfg is not None:
-                decoy_cfg_aliases[f["name"]] = cfg
+            meta, ann, _ = sources(f["name"], tag=cls_names[j])
+            levels[j]["decls"].append(dict(f, meta=meta, ann=ann, mo=rng.random() < 0.25, kw=f["kw"]))
         levels[where[-1]]["decls"].append(f)
         # sometimes a nearer class turns the field into a non-init member: from_dict does not read it any more
         if where[-1] < depth - 1 and rng.random() < 0.12:
@@ -366,22 +483,40 @@ def gen_spec(rng, force=None):
         for n in rng.sample(["w", "v"], rng.choice([1, 1, 2])):
             levels[rng.randrange(depth)]["decls"].append(
                 {"name": n, "meta": rng.choice([None, None, f"m_{n}", "s1"]), "ann": None, "init": False,
-                 "dflt": "int", "ty": "int", "mo": False})
-            c = rng.choice([None, None, f"c_{n}", "s2"])
-            if c is not None:
-                cfg_aliases[n] = c
+                 "dflt": "int", "ty": "int", "mo": False, "kw": False, "tv": False})
     if rng.random() < 0.2:
         classvar.append("u")
-    # the Config K sees sits in K or in an ancestor; a farther ancestor may define another one (shadowed)
-    allow = force.get("allow", rng.random() < 0.5)
-    forbid = force.get("forbid", rng.random() < 0.5)
-    cl = rng.randrange(depth) if rng.random() < 0.5 else depth - 1
-    levels[cl]["config"] = {"aliases": cfg_aliases, "allow": allow, "forbid": forbid}
-    if cl > 0 and rng.random() < 0.5:
-        levels[rng.randrange(cl)]["config"] = {"aliases": decoy_cfg_aliases, "allow": not allow,
-                                               "forbid": rng.random() < 0.5}
-    return {"levels": levels, "classvar": classvar, "discr": discr,
-            "mixin": force.get("mixin", rng.random() < 0.6)}
+    initvar = ["iv"] if rng.random() < 0.2 else []
+    if generic:
+        for f in levels[0]["decls"]:
+            if f["ty"] == "int":
+                f["tv"] = True                     # written `x: T` in the generic base A, bound to int by the heirs
+    # Config classes: any level may define one; it may derive from the Config it would otherwise see, be a plain
+    # class, and write any subset of the options
+    def cfg_alias_map(tag):
+        out = {}
+        for n in names + [f["name"] for lv in levels for f in lv["decls"] if not f["init"]]:
+            if n not in out and rng.random() < 0.45:
+                out[n] = pick("c" + tag, n)
+        return out
+
+    if "allow" in force:
+        levels[-1]["config"] = {"plain": False, "inherit": None, "aliases": cfg_alias_map(""),
+                                "allow": force["allow"], "forbid": force["forbid"]}
+    else:
+        lower = None                               # nearest lower level that has a Config
+        for j, lv in enumerate(levels):
+            if rng.random() < (0.85 if j == depth - 1 else 0.45):
+                inherit = lower is not None and rng.random() < 0.5
+                plain = levels[lower]["config"]["plain"] if inherit else rng.random() < 0.25
+                written = 0.6 if inherit else 0.8
+                lv["config"] = {"plain": plain, "inherit": levels[lower]["cls"] if inherit else None,
+                                "aliases": cfg_alias_map("" if j == depth - 1 else lv["cls"]) if rng.random() < written else None,
+                                "allow": (rng.random() < 0.5) if rng.random() < written else None,
+                                "forbid": (rng.random() < 0.5) if rng.random() < written else None}
+                lower = j
+    return {"levels": levels, "classvar": classvar, "initvar": initvar, "shape": shape, "generic": generic, "discr": discr,
+            "mixin": force["mixin"] if "mixin" in force else rng.choice([None, None, "dict", "dict", "json", "orjson", "msgpack", "yaml"])}
 
 
 def all_alias_strings(spec) -> list:
@@ -391,7 +526,7 @@ def all_alias_strings(spec) -> list:
         for f in lv["decls"]:
             out += [f["meta"]] + [x[1] for x in (f["ann"] or []) if x[0] == "alias"]
         if lv["config"] is not None:
-            out += list(lv["config"]["aliases"].values())
+            out += list((lv["config"]["aliases"] or {}).values())
     return [a for a in out if a is not None]
 
 
@@ -505,9 +640,12 @@ def c_spec(spec) -> str:
             cfg = "None"
         else:
             c = lv["config"]
-            cfg = f"(Some (mkCfg {c_aliases(c['aliases'])} {vlib.coq_bool(c['allow'])} {vlib.coq_bool(c['forbid'])}))"
+            ob = lambda b: "None" if b is None else f"(Some {vlib.coq_bool(b)})"
+            al = "None" if c["aliases"] is None else f"(Some {c_aliases(c['aliases'])})"
+            cfg = (f"(Some (mkCD {vlib.coq_bool(c['inherit'] is not None)} {vlib.coq_bool(c['plain'])} {al} "
+                   f"{ob(c['allow'])} {ob(c['forbid'])}))")
         lv_txt.append(f"mkL [{decls}] {cfg}")
-    return f"(class_of [{'; '.join(lv_txt)}] {c_discr(spec)})"
+    return f"[{'; '.join(lv_txt)}]"
 
 
 def c_val(v) -> str:
@@ -540,7 +678,7 @@ def c_obs(o) -> str:
     return '(VMissing "<unexpected exception>")'     # never equal to a model outcome (no such field name)
 
 
-CASE_TYPE = "cls * list Z * dict * observation"
+CASE_TYPE = "list level * option (option string) * list Z * dict * observation"
 
 
 def coq_check(name, model, items, ok_fun, ctx, shard=500, ctype=CASE_TYPE):
@@ -626,12 +764,221 @@ def kernel_validation(ctx, rng):
         if bad:
             ctx.not_shown("translation validation K4", f"inputs {[shown[i] for i in bad[:5]]}")
 
+
+# ---------------------------------------------------------------------------
+# dataclass-typed fields (one level of nesting): generator, oracle, observation
+# ---------------------------------------------------------------------------
+
+def gen_nested(rng):
+    """outer class K with 1..3 fields, at least one of type N (another dataclass with its own aliases and options)"""
+    def decl(n, ty, dflt, tag):
+        meta = rng.choice([None, f"m{tag}_{n}", "s1", n]) if rng.random() < 0.6 else None
+        ann = [("alias", rng.choice([f"a{tag}_{n}", "s2"]))] if rng.random() < 0.3 else None
+        return {"name": n, "meta": meta, "ann": ann, "init": True, "dflt": dflt, "ty": ty, "mo": False, "kw": False, "tv": False}
+
+    def cfg(names, tag):
+        return {"plain": False, "inherit": None,
+                "aliases": {n: rng.choice([f"c{tag}_{n}", "s1", "s2"]) for n in names if rng.random() < 0.4},
+                "allow": rng.random() < 0.5, "forbid": rng.random() < 0.5}
+    inames = ["p", "q"][:rng.choice([1, 2, 2])]
+    k = rng.randrange(len(inames) + 1)
+    idecls = [decl(n, "int", "int" if i >= len(inames) - k else None, "i") for i, n in enumerate(inames)]
+    inner = {"levels": [{"cls": "N", "decls": idecls, "config": cfg(inames, "i")}], "classvar": [], "initvar": [],
+             "shape": "chain", "generic": False, "discr": None, "mixin": rng.choice([None, "dict"])}
+    names = NAMES[:rng.choice([1, 2, 2, 3])]
+    nested = set(rng.sample(names, rng.choice([1, 1, 2]) if len(names) > 1 else 1))
+    k = rng.randrange(len(names) + 1)
+    decls = []
+    for i, n in enumerate(names):
+        has_d = i >= len(names) - k
+        if n in nested:
+            decls.append(decl(n, "nested", "none" if has_d else None, "o"))
+        else:
+            decls.append(decl(n, "any", "int" if has_d else None, "o"))
+    return {"levels": [{"cls": "K", "decls": decls, "config": cfg(names, "o")}], "classvar": [], "initvar": [],
+            "shape": "chain", "generic": False, "discr": None, "mixin": rng.choice([None, "dict", "json"]), "inner": inner}
+
+
+def o_nkeymodel(spec, d):
+    """the outer class resolves its keys with its own rules; a dataclass-typed field hands the value it was read from to
+    the inner class, which applies *its* rules; anything going wrong inside is an InvalidFieldValue of the outer field"""
+    acc = o_accepted(spec)
+    extra = [k for k in d if k not in acc]
+    if o_config(spec)["forbid"] and extra:
+        return ("extra", extra)
+    vals = []
+    for f in o_fields(spec):
+        for k in o_candidates(spec, f):
+            if k in d:
+                v = d[k]
+                if f["ty"] == "nested":
+                    if not isinstance(v, dict):
+                        return ("invalid", f["name"])
+                    r = o_keymodel(spec["inner"], v)
+                    if r[0] != "inst":
+                        return ("invalid", f["name"])
+                    v = ("inner", r[1])
+                vals.append((f["name"], v))
+                break
+        else:
+            if f["dflt"] is None:
+                return ("missing", f["name"])
+            vals.append((f["name"], o_default(f)))
+    return ("inst", vals)
+
+
+def observe_nested(spec, call, d):
+    from mashumaro.exceptions import ExtraKeysError, InvalidFieldValue, MissingField
+    try:
+        obj = call({k: (dict(v) if isinstance(v, dict) else v) for k, v in d.items()})
+    except ExtraKeysError as e:
+        ek = set(e.extra_keys)
+        if any(k not in d for k in ek):
+            return ("exc", f"ExtraKeysError.extra_keys {ek!r} is not a set of input keys")
+        return ("extra", [k for k in d if k in ek])
+    except MissingField as e:
+        return ("missing", e.field_name)
+    except InvalidFieldValue as e:
+        return ("invalid", e.field_name)
+    except Exception as e:
+        return ("exc", f"{type(e).__name__}: {e}")
+    if type(obj).__name__ != "K":
+        return ("exc", f"result is a {type(obj).__name__}")
+    vals = []
+    for f in o_fields(spec):
+        v = getattr(obj, f["name"], "<no attribute>")
+        if type(v).__name__ == "N":
+            v = ("inner", [(g["name"], getattr(v, g["name"], "<no attribute>")) for g in o_fields(spec["inner"])])
+        vals.append((f["name"], v))
+    return ("inst", vals)
+
+
+def nested_stream(ctx, rng, k4_ok):
+    import json
+    from mashumaro.codecs import BasicDecoder
+    from mashumaro.codecs.json import JSONDecoder
+    items, shown = [], []
+    n_cls = ctx.budget(40, 200)
+    for ci in range(n_cls):
+        spec = gen_nested(rng)
+        src = class_source(spec)
+        try:
+            mod = build_class(src)
+            K = mod.K
+            ents = ([("K.from_dict", K.from_dict)] if spec["mixin"] else []) + [("BasicDecoder(K).decode", BasicDecoder(K).decode)]
+            jd = JSONDecoder(K)
+            ents.append(("JSONDecoder(K).decode", lambda d, jd=jd: jd.decode(json.dumps(d))))
+            if spec["mixin"] == "json":
+                ents.append(("K.from_json", lambda d, K=K: K.from_json(json.dumps(d))))
+        except Exception as e:
+            ctx.fail(f"class creation fails: {type(e).__name__}: {e}",
+                     {"entry": "class-creation", "source": src, "spec": spec, "input": [], "observed": repr(e),
+                      "expected": "classes N and K are created"}, {"kind": "class-creation", "exc": type(e).__name__})
+            continue
+        inner = spec["inner"]
+        ikeys = candidate_keys(inner, rng, limit=5)
+        okeys = candidate_keys(spec, rng, limit=6)
+        ncands = {k for f in o_fields(spec) if f["ty"] == "nested" for k in o_candidates(spec, f)}
+        ctx.hist("nested", f"outer fields={len(o_fields(spec))} nested={sum(1 for f in o_fields(spec) if f['ty'] == 'nested')} "
+                           f"inner fields={len(o_fields(inner))}")
+        c_outer = f"(class_of {c_spec(spec)} None)"
+        c_inner = f"(class_of {c_spec(inner)} None)"
+        nt = "[" + "; ".join(f"({coq_str(f['name'])}, n{ci})" for f in o_fields(spec) if f["ty"] == "nested") + "]"
+        idfl = "[" + "; ".join(f"({coq_str(f['name'])}, {c_defaults(inner)})" for f in o_fields(spec) if f["ty"] == "nested") + "]"
+        dtxt = f"Definition n{ci} : cls := {c_inner}.\nDefinition c{ci} : cls := {c_outer}."
+        for ks in subsets(okeys, rng, ctx.budget(20, 64)):
+            tbl = []
+            d = {}
+            order = list(ks)
+            rng.shuffle(order)
+            for k in order:
+                want_dict = rng.random() < (0.8 if k in ncands else 0.1)
+                if want_dict:
+                    iks = [x for x in ikeys if rng.random() < 0.6]
+                    rng.shuffle(iks)
+                    dn = {x: 200 + 10 * len(tbl) + ikeys.index(x) for x in iks}
+                    dn = {x: v for x, v in dn.items()}
+                    tbl.append(dn)
+                    d[k] = dn
+                else:
+                    d[k] = 100 + okeys.index(k)
+            if not all(isinstance(x, str) for dn in tbl for x in dn) or not str_keys(d):
+                json_ok = False
+            else:
+                json_ok = True
+            exp = o_nkeymodel(spec, d)
+            obs0 = None
+            for ename, call in ents:
+                if "JSON" in ename or "json" in ename:
+                    if not json_ok:
+                        continue
+                obs = observe_nested(spec, call, d)
+                ctx.count(("nested", ci, repr(sorted(map(repr, d.items()))), ename))
+                ctx.hist("outcome", obs[0] + " (nested stream)")
+                if obs0 is None:
+                    obs0 = obs
+                if obs != exp:
+                    ctx.fail(f"{ename}({d!r}) -> {obs!r}, KEYMODEL says {exp!r}",
+                             dict(replay_of(spec, src, ename, {}, obs, exp), input_nested=[[jsonable_key(k), v if not isinstance(v, dict) else {"dict": [[jsonable_key(a), b] for a, b in v.items()]}] for k, v in d.items()]),
+                             {"kind": "nested-key-resolution", "observed": obs[0], "expected": exp[0]})
+
+            def cv(v):
+                if isinstance(v, dict):
+                    return coq_z(1000 + [i for i, t in enumerate(tbl) if t is v or t == v][0])
+                return c_val(v)
+
+            def cobs(o):
+                if o[0] == "inst":
+                    parts = []
+                    for n, v in o[1]:
+                        if isinstance(v, tuple) and v[0] == "inner":
+                            parts.append(f"({coq_str(n)}, OI [" + "; ".join(f"({coq_str(a)}, {c_val(b)})" for a, b in v[1]) + "])")
+                        elif isinstance(v, (int, dict)) or v is None:
+                            parts.append(f"({coq_str(n)}, OV {cv(v)})")
+                        else:
+                            return '(NVMissing "<unexpected value>")'
+                    return "(NVInst [" + "; ".join(parts) + "])"
+                if o[0] == "missing":
+                    return f"(NVMissing {coq_str(o[1])})"
+                if o[0] == "invalid":
+                    return f"(NVInvalid {coq_str(o[1])})"
+                if o[0] == "extra":
+                    return "(NVExtra [" + "; ".join(c_key(k) for k in o[1]) + "])"
+                return '(NVMissing "<unexpected exception>")'
+            ctbl = "[" + "; ".join(c_dict(t) for t in tbl) + "]"
+            cd = "[" + "; ".join(f"({c_key(k)}, {cv(v)})" for k, v in d.items()) + "]"
+            items.append((ci, dtxt, f"(c{ci}, {nt}, {c_defaults(spec)}, {idfl}, {ctbl}, {cd}, {cobs(obs0)})"))
+            shown.append((src, d, obs0))
+        drop_module(mod)
+    ok_ref = ("fun c => match c with (cl, nt, dfl, idfl, tbl, d, o) => "
+              "nobservation_eqb (nobserve dfl idfl (nkeymodel cl nt tbl d)) o end")
+    ok_both = ("fun c => match c with (cl, nt, dfl, idfl, tbl, d, o) => "
+               "nobservation_eqb (nobserve dfl idfl (nimpl cl nt tbl d)) o && "
+               "nobservation_eqb (nobserve dfl idfl (nkeymodel cl nt tbl d)) o end")
+    ctype = "cls * list (string * cls) * list Z * list (string * list Z) * list dict * dict * nobservation"
+    if k4_ok:
+        bad, log = coq_check("c09_nested", ("KeyModel KeyImpl KeyProofs KeyNested PyK_alias", "From VerifGen Require Import K4.",
+                                            ["theories/KeyNested.vo"]), items, ok_both, ctx, ctype=ctype)
+    else:
+        bad, log = None, "kernel K4 did not translate (the nested model is built on it)"
+    name = "nested: nimpl(K4)/nkeymodel-vs-from_dict"
+    if bad is None:
+        ctx.correspondence(name, len(items), -1, log)
+        ctx.not_shown("correspondence " + name, log)
+    else:
+        det = "" if not bad else f"{len(bad)} cases, first: input {shown[bad[0]][1]!r}: implementation {shown[bad[0]][2]!r}\n{shown[bad[0]][0]}"
+        ctx.correspondence(name, len(items), len(bad), det)
+        if bad:
+            ctx.not_shown("correspondence " + name, det)
+
+
 # ---------------------------------------------------------------------------
 # the check
 # ---------------------------------------------------------------------------
 
 THEOREMS = ["K4_precedence", "K4_key_plan", "K4_allowed_keys", "C09_impl_is_code", "C09_keys", "C09_keys_hier",
-            "C09_nearest_declaration", "C09_nearest_config", "C09_fields_unique",
+            "C09_nearest_declaration", "C09_nearest_config", "C09_get_config", "C09_builder_config", "C09_fields_unique", "C09_alias_from_sources",
+            "C09_mro_chain", "C09_mro_roots", "C09_own_view_finished", "C09_own_view_raw", "C09_nested", "C09_nested_inner_options",
             "C09_field_key", "C09_outcome", "C09_alias_wins", "C09_fallback", "C09_accepted_covers_reads",
             "C09_reads_allowed", "C09_extra_members", "C09_extra_exact", "C09_ignored", "C09_forbidden_reported"]
 
@@ -685,7 +1032,7 @@ def run(ctx: vlib.Ctx):
         "input keys are hashable scalars (str / None / int); values are ints or None and are opaque to the model (None "
         "crosses to Coq as the reserved code -7); outcomes are compared at the level of what is observable: attribute values",
     ]
-    br = ctx.theorems("props/C09_keys.vo", THEOREMS, kernels=["K4"])
+    br = ctx.theorems("props/C09_keys.vo", THEOREMS, kernels=["K4", "K5"])
     # every registered name must be a theorem of the props file with its own Print Assumptions, all closed
     import os
     import re
@@ -711,11 +1058,13 @@ def run(ctx: vlib.Ctx):
     rng = ctx.rng
     if k4_ok:
         kernel_validation(ctx, rng)
-    n_classes = ctx.budget(200, 380)
+    nested_stream(ctx, rng, k4_ok)
+    n_classes = ctx.budget(200, 320)
     sub_max = ctx.budget(32, 256)
     forced = [{"allow": a, "forbid": b, "mixin": m, "nf": nf, "depth": dp} for a in (False, True) for b in (False, True)
-              for m in (False, True) for nf, dp in ((1, 1), (2, 3))]
+              for m in (None, "dict") for nf, dp in ((1, 1), (2, 3))]
     cases = []          # (spec, src, entry, d, obs)
+    src_items, src_shown = [], []      # the builder's view of the classes vs the modelled Python semantics
     coq_defs = []
     coq_cases = []
     dom_cases = []
@@ -739,6 +1088,18 @@ def run(ctx: vlib.Ctx):
                       "expected": "BasicDecoder(K) is created"}, {"kind": "class-creation", "exc": type(e).__name__})
             drop_module(mod)
             continue
+        try:
+            for sub, flds, cfgv_ in source_views(spec, mod):
+                k = len(src_items)
+                # fields: the classes this class is made of; Config: every class defined before it may be named
+                src_items.append((k, f"Definition s{k} : list level := {c_spec(dict(spec, levels=sub))}.\n"
+                                     f"Definition t{k} : list level := {c_spec(dict(spec, levels=cfg_hierarchy(spec, sub)))}.",
+                                  f"(s{k}, t{k}, {flds}, {cfgv_})"))
+                src_shown.append((src, [lv["cls"] for lv in sub], flds, cfgv_))
+        except Exception as e:
+            ctx.fail(f"CodeBuilder view fails: {type(e).__name__}: {e}",
+                     {"entry": "class-creation", "source": src, "spec": spec, "input": [], "observed": repr(e),
+                      "expected": "CodeBuilder(cls).dataclass_fields / get_config()"}, {"kind": "class-creation", "exc": type(e).__name__})
         keys = candidate_keys(spec, rng)
         fields = o_fields(spec)
         cfgv = o_config(spec)
@@ -752,13 +1113,18 @@ def run(ctx: vlib.Ctx):
         for lv in spec["levels"]:
             for f in lv["decls"]:
                 n_decl[f["name"]] = n_decl.get(f["name"], 0) + 1
-        ctx.hist("hierarchy", f"depth={len(spec['levels'])} redeclared={sum(1 for v in n_decl.values() if v > 1)} "
-                              f"config_in={'K' if spec['levels'][-1]['config'] is not None else 'ancestor'}")
+        ctx.hist("hierarchy", f"depth={len(spec['levels'])} {spec['shape']}{' generic' if spec['generic'] else ''} "
+                              f"redeclared={sum(1 for v in n_decl.values() if v > 1)}")
+        cfs = [lv["config"] for lv in spec["levels"] if lv["config"] is not None]
+        ctx.hist("config", f"classes={len(cfs)} deriving={sum(1 for c in cfs if c['inherit'])} plain={sum(1 for c in cfs if c['plain'])} "
+                           f"in_K={int(spec['levels'][-1]['config'] is not None)}")
+        ctx.hist("entry_mixin", str(spec["mixin"]))
         ctx.hist("non_init_members", f"init=False:{sum(1 for lv in spec['levels'] for f in lv['decls'] if not f['init'])} "
-                                     f"ClassVar:{len(spec['classvar'])}")
+                                     f"ClassVar:{len(spec['classvar'])} InitVar:{len(spec['initvar'])} "
+                                     f"kw_only:{sum(1 for f in fields if f['kw'])}")
         nullable = nullable_class(spec)
         ctx.hist("values", "ints and None" if nullable else "ints")
-        coq_defs.append(f"Definition c{ci} : cls := {c_spec(spec)}.")
+        coq_defs.append(f"Definition c{ci} : list level := {c_spec(spec)}.")
         dfl = c_defaults(spec)
         dicts = []
         for ks in subsets(keys, rng, sub_max):
@@ -770,7 +1136,9 @@ def run(ctx: vlib.Ctx):
             ks = list(d)
             exp = o_keymodel(spec, d)
             obs_all = []
-            for ename, call in ents:
+            for ename, call, need_str in ents:
+                if need_str and not str_keys(d):
+                    continue                          # the format cannot carry this key
                 via_base = "Base" in ename
                 dd = d
                 if via_base:
@@ -782,29 +1150,32 @@ def run(ctx: vlib.Ctx):
                 obs = observe(spec, call, dd)
                 ctx.count((ci, repr(sorted(d.items(), key=repr)), ename))
                 ctx.hist("outcome", obs[0] + (" (via Base)" if via_base else ""))
-                if not via_base:
+                ctx.hist("entry", ename)
+                if not via_base and not need_str:
                     obs_all.append(obs)
                 if obs != exp:
                     n_mismatch_oracle += 1
+                    kind = "key-resolution"
                     ctx.fail(f"{ename}({dd!r}) -> {obs!r}, KEYMODEL says {exp!r}",
                              replay_of(spec, src, ename, dd, obs, exp),
-                             {"kind": "key-resolution", "observed": obs[0], "expected": exp[0]})
+                             {"kind": kind, "observed": obs[0], "expected": exp[0]})
             # all entry points agree? (if not, the oracle has already flagged at least one of them)
             obs0 = obs_all[0]
-            coq_cases.append((ci, coq_defs[-1], f"(c{ci}, {dfl}, {c_dict(d)}, {c_obs(obs0)})"))
+            coq_cases.append((ci, coq_defs[-1], f"(c{ci}, {c_discr(spec)}, {dfl}, {c_dict(d)}, {c_obs(obs0)})"))
             cases.append((spec, src, ents[0][0], d, obs0))
             if len(ctx.coverage["samples"]) < 6 and len(ks) >= 2 and rng.random() < 0.01:
                 ctx.sample({"class": src, "input": repr(d), "observed": repr(obs0)})
         drop_module(mod)
 
     # ---- correspondence: Coq models vs the real implementation, same cases
-    ok_impl = ("fun c => match c with (cl, dfl, d, o) => match impl_from_dict cl d with "
+    ok_impl = ("fun c => match c with (h, dk, dfl, d, o) => match impl_from_hier h dk d with "
                "Ok r => observation_eqb (observe dfl r) o | Raise _ => false end end")
-    ok_ref = "fun c => match c with (cl, dfl, d, o) => observation_eqb (observe dfl (keymodel cl d)) o end"
-    ok_both = ("fun c => match c with (cl, dfl, d, o) => match impl_from_dict cl d with "
+    ok_ref = ("fun c => match c with (h, dk, dfl, d, o) => "
+              "observation_eqb (observe dfl (keymodel (class_of h dk) d)) o end")
+    ok_both = ("fun c => match c with (h, dk, dfl, d, o) => match impl_from_hier h dk d with "
                "Ok r => observation_eqb (observe dfl r) o | Raise _ => false end "
-               "&& observation_eqb (observe dfl (keymodel cl d)) o end")
-    IMPL = ("KeyModel KeyImpl PyK_alias", "From VerifGen Require Import K4.", ["theories/KeyImpl.vo"])
+               "&& observation_eqb (observe dfl (keymodel (class_of h dk) d)) o end")
+    IMPL = ("KeyModel KeyImpl KeyProofs KeyCfg PyK_alias", "From VerifGen Require Import K4.", ["theories/KeyCfg.vo"])
     REF = ("KeyModel", "", ["theories/KeyModel.vo"])
 
     def report(name, bad, log, n):
@@ -844,6 +1215,26 @@ def run(ctx: vlib.Ctx):
         report(n_ref, bad, log, n_dom)
     ctx.notes.append(f"oracle mismatches (incl. listed findings): {n_mismatch_oracle}")
 
+    # ---- the modelled Python / dataclasses semantics and CodeBuilder's own view of the classes
+    okv = ("fun c => match c with (h, hc, fs, g) => view_eqb (decl_view (collect h)) fs && cfg_eqb (nearest_cfg hc) g end")
+    src_model = REF
+    if k4_ok:
+        # the Config also through the translated get_config run on the class objects of the hierarchy
+        okv = ("fun c => match c with (h, hc, fs, g) => view_eqb (decl_view (collect h)) fs && cfg_eqb (nearest_cfg hc) g "
+               "&& match impl_cfg hc with Ok g' => cfg_eqb g' g | Raise _ => false end end")
+        src_model = IMPL
+    bad, log = coq_check("c09_src", src_model, src_items, okv, ctx,
+                         ctype="list level * list level * list (string * option string * bool) * cfg")
+    nm = "collect/nearest_cfg/impl_cfg(K4)-vs-CodeBuilder.dataclass_fields/get_config"
+    if bad is None:
+        ctx.correspondence(nm, len(src_items), -1, log)
+        ctx.not_shown("correspondence " + nm, log)
+    else:
+        det = "" if not bad else f"{len(bad)} cases, first: {src_shown[bad[0]][1:]} of\n{src_shown[bad[0]][0]}"
+        ctx.correspondence(nm, len(src_items), len(bad), det)
+        if bad:
+            ctx.not_shown("correspondence " + nm, det)
+
 
 # ---------------------------------------------------------------------------
 # replay
@@ -865,9 +1256,30 @@ def replay(rep: dict) -> int:
             print("REPRODUCED")
             return 1
         return 2
+    if rep["entry"] in ("class-creation", "decoder-creation"):
+        try:
+            entries(spec, mod)
+            source_views(spec, mod)
+        except Exception as e:
+            print("decoder / builder creation:", type(e).__name__, e)
+            print("REPRODUCED")
+            return 1
+        print("classes, decoders and builder views are created")
+        print("not reproduced")
+        return 0
+    if "input_nested" in rep:
+        from mashumaro.codecs import BasicDecoder
+        d = {unjson_key(k): ({unjson_key(a): b for a, b in v["dict"]} if isinstance(v, dict) else v) for k, v in rep["input_nested"]}
+        norm_spec(spec["inner"])
+        call = mod.K.from_dict if rep["entry"] == "K.from_dict" else BasicDecoder(mod.K).decode
+        obs = observe_nested(spec, call, d)
+        exp = o_nkeymodel(spec, d)
+        print(rep["source"]); print("input   ", d); print("observed", obs); print("expected", exp)
+        print("REPRODUCED" if obs != exp else "not reproduced")
+        return 1 if obs != exp else 0
     d = {unjson_key(k): v for k, v in rep["input"]}
     call = None
-    for ename, c in entries(spec, mod):
+    for ename, c, _ in entries(spec, mod):
         if ename == rep["entry"]:
             call = c
     if call is None:
